@@ -134,10 +134,10 @@ def native_run(hmod, fn, call_args, timeout=600):
         return {'ok': None, 'crash': (p.stdout + p.stderr)[-2000:]}
 
 
-def child_env():
+def child_env(hashseed=None):
     env = dict(os.environ)
     env['PYTHONPATH'] = VERIF
-    env['PYTHONHASHSEED'] = env.get('VERIF_HASHSEED', '0')
+    env['PYTHONHASHSEED'] = str(hashseed) if hashseed is not None else env.get('VERIF_HASHSEED', '0')
     env['PYTHONDONTWRITEBYTECODE'] = '1'
     env['PYTHONWARNINGS'] = 'ignore'
     return env
@@ -150,7 +150,7 @@ def run_job(job):
     try:
         p = subprocess.run([PY, '-m', 'vt.worker', jf], capture_output=True,
                            text=True, timeout=job['timeout'] + 120,
-                           env=child_env(), cwd=VERIF)
+                           env=child_env(job.get('hashseed')), cwd=VERIF)
         lines = [ln for ln in p.stdout.splitlines() if ln.startswith('{')]
         res = json.loads(lines[-1]) if lines else {
             'id': job['id'], 'kind': job['kind'],
@@ -211,14 +211,15 @@ def check_property(prop, tier='quick', only=None, verbose=True):
             slices = (h.get('slices') or {}).get(tier) or ['']
             tmo = h.get('timeout', {}).get(tier, 120 if tier == 'quick' else 850)
             for si, sl in enumerate(slices):
-                jid = '%s_v%d' % (h['name'], si)
+              for hs in (h.get('hashseeds') or [None]):
+                jid = '%s_v%d' % (h['name'], si) + ('' if hs is None else '_hs%d' % hs)
                 gen_wrapper(workdir, 'w_' + jid, hmodname, h['fn'], h['params'],
                             h['call'], bounds + [sl] + excl, '_')
                 jobs.append(dict(id=jid, kind='verify', harness=h['name'],
                                  slice=sl, wmod='w_' + jid, hmod=hmodname,
                                  workdir=workdir, verif=VERIF, timeout=tmo,
                                  path_timeout=h.get('path_timeout', 120),
-                                 pres=bounds + [sl] + excl))
+                                 pres=bounds + [sl] + excl, hashseed=hs, pair='%s_v%d' % (h['name'], si)))
             if h.get('reach'):
                 jid = '%s_reach' % h['name']
                 rb = h.get('reach_bounds', {}).get(tier, bounds)
@@ -300,6 +301,22 @@ def check_property(prop, tier='quick', only=None, verbose=True):
             if r.get('native') != r.get('traced'):
                 errors.append('%s: fidelity mismatch native=%r traced=%r' % (j['id'], r.get('native'), r.get('traced')))
             rec['vec'] = j['vec']
+
+    # hash-seed pairs: the same slice explored under different PYTHONHASHSEEDs
+    # must produce the same set of path summaries (inputs + observed order)
+    pairs = {}
+    for r in results:
+        j = r['job']
+        if j['kind'] == 'verify' and j.get('hashseed') is not None and classify(r) == 'confirmed':
+            pairs.setdefault(j['pair'], []).append((j['hashseed'], r.get('summ_digest'), r.get('n_summaries')))
+    for pid, lst in sorted(pairs.items()):
+        if len({d for _s, d, _n in lst}) > 1:
+            rp = os.path.join(VERIF, 'replays', '%s-seedpair-%s.json' % (prop, pid))
+            os.makedirs(os.path.dirname(rp), exist_ok=True)
+            json.dump({'property': prop, 'kind': 'seedpair', 'pair': pid, 'seen': lst,
+                       'note': 'the set of (input, observed result) summaries of this slice differs between PYTHONHASHSEED values; '
+                               're-run ./check %s --only %s to reproduce' % (prop, pid.rsplit('_v', 1)[0])}, open(rp, 'w'), indent=1)
+            violations.append((pid, {'hashseeds': [x[0] for x in lst]}, rp))
 
     # known findings: re-execute the witness natively
     kf_lines = []
@@ -413,6 +430,8 @@ def write_replay(prop, hmodname, h, vec, call_args, nat, message):
 
 def replay(path):
     body = json.load(open(path))
+    if body.get('kind') == 'seedpair':
+        return check_property(body['property'], 'quick', only=[body['pair'].rsplit('_v', 1)[0]])
     nat = native_run(body['module'], body['fn'], body['call_args'])
     print(json.dumps(nat, indent=1)[:3000])
     if nat.get('ok') is False:
